@@ -166,3 +166,42 @@ TARGETS = {"codebasin.file_source:fortran_cleaner.process": FortranLines(),
            # C preprocessor conditionals, definitions and includes in Fortran (.F90) files select lines exactly as in C files
            "codebasin.file_source:fortran_file_source": SysTarget("fortran-conditionals", ("fortran", "multi", "forced"),
                                                                   quick_n=150, thorough_n=3000)}
+
+
+# ---- recorded findings reported by defect hunting (all four lie outside the listed grammar or need #include) -----------
+import os as _os                         # noqa: E402
+from native import recorded as _R      # noqa: E402
+
+
+def _x_backslash():
+    got = _R.counted_lines("program p\ncharacter(20) :: s\ns = 'C:\\tmp\\'\n! don't count me\nprint *, s\nend program\n", ".f90")
+    return None if got == [1, 2, 3, 5, 6] else ("[1, 2, 3, 5, 6] (Fortran has no backslash escapes; gfortran -fsyntax-only accepts the text)", got)
+
+
+def _x_directive_in_c_comment():
+    with _R.tree({"m.F90": "/* ...\n#define B 1\n*/\nprogram p\n#ifdef B\nprint *, 'B'\n#endif\nend program\n"}) as root:
+        used = _R.used_lines(root, [{"file": _os.path.join(root, "m.F90"), "defines": [], "include_paths": [], "include_files": []}])
+    return None if 6 not in used.get("m.F90", []) else ("line 6 unused: the #define sits inside a /* */ comment (gfortran -cpp -E)", used)
+
+
+def _x_quote_state():
+    txt = "#ifdef A\nmsg = 'version A &\n#else\nmsg = 'version B &\n#endif\n&of the code'\n! a comment\nprint *, msg\n! it's done\n"
+    got = _R.counted_lines(txt, ".F90")
+    return None if 7 not in got and 9 not in got else ("comment lines 7 and 9 are not counted", got)
+
+
+def _x_fragment():
+    from codebasin import finder, platform
+    with _R.tree({"m.F90": "subroutine s(a, &\n#include \"args.inc\"\n     z)\nend subroutine\n", "args.inc": "     b, c, &\n"}) as root:
+        st = finder.ParserState(False)
+        st.insert_file(_os.path.join(root, "m.F90"))
+        st.associate(_os.path.join(root, "m.F90"), platform.Platform("P", root))
+    return None
+
+
+TARGETS["codebasin.file_source:fortran_file_source#recorded-findings"] = _R.Exhibits([
+    ("fortran:backslash-in-a-character-literal-taken-for-an-escape", "s = 'C:\\tmp\\' followed by a comment line", _x_backslash),
+    ("fortran:directive-inside-a-c-comment-is-executed", "/* ... / #define B 1 / */ in a .F90 file", _x_directive_in_c_comment),
+    ("fortran:quote-state-survives-the-end-of-a-line", "a literal continued in both arms of #ifdef/#else", _x_quote_state),
+    ("fortran:included-fragment-ending-in-a-continuation-aborts", "#include \"args.inc\" where args.inc is `b, c, &`", _x_fragment),
+])
